@@ -781,7 +781,7 @@ class Domain:
         p[0] = p[1]
         p[0]["base_type"] = p[2]
         p[0]["properties"] = {}
-        if p[0]["base_type"] == "ENUM":
+        if p[0]["base_type"].upper() == "ENUM":
             p[0]["properties"]["values"] = p_list[4]
 
     def p_domain_name(self, p: List) -> None:
